@@ -221,7 +221,7 @@ func search(t *testing.T, p Property) {
 	states := map[uint64]struct{}{}
 	deadline := start.Add(time.Duration(*fBudget * float64(time.Second)))
 	flag.Set("rapid.nofailfile", "true")
-	flag.Set("rapid.shrinktime", "20s")
+	flag.Set("rapid.shrinktime", "12s")
 	maxTape := 400
 	if *fThorough {
 		maxTape = 1500
@@ -234,7 +234,7 @@ func search(t *testing.T, p Property) {
 	}
 	reported := map[string]bool{}
 	batch := uint64(0)
-	for time.Now().Before(deadline) && (*fMaxCases == 0 || res.Cases < *fMaxCases) && len(res.Violations) < 5 {
+	for time.Now().Before(deadline) && (*fMaxCases == 0 || res.Cases < *fMaxCases) && len(res.Violations) < 3 {
 		batch++
 		seed := splitmix(*fSeed*1000003 + batch)
 		if seed == 0 {
